@@ -554,14 +554,22 @@ def run(repo: Repo, chk: Check, thorough: bool = False) -> None:
         if not (f.cls is not None and f.name.startswith('handle_consolidated_') and f.name.endswith('_list')):
             continue
         itemsp = f.params()[1].arg if len(f.params()) > 1 else None
-        loops = [n for n in f.walk() if isinstance(n, ast.For) and isinstance(n.iter, ast.Name) and n.iter.id == itemsp and isinstance(n.target, ast.Name)]
+        def _item_var(n: ast.For) -> Optional[str]:
+            """the loop variable that holds a list item: `for item in items` or `for n, item in enumerate(items, 1)`"""
+            if isinstance(n.iter, ast.Name) and n.iter.id == itemsp and isinstance(n.target, ast.Name):
+                return n.target.id
+            if isinstance(n.iter, ast.Call) and call_name(n.iter) == 'enumerate' and n.iter.args and isinstance(n.iter.args[0], ast.Name) and \
+                    n.iter.args[0].id == itemsp and isinstance(n.target, ast.Tuple) and len(n.target.elts) == 2 and isinstance(n.target.elts[1], ast.Name):
+                return n.target.elts[1].id
+            return None
+        loops = [n for n in f.walk() if isinstance(n, ast.For) and _item_var(n) is not None]
         emit = [lp for lp in loops if any(isinstance(c, ast.Call) and call_name(c) == '_add_field' for st in lp.body for c in ast.walk(st))]
         if not emit:
             continue
         n14 += 1
         bad14 = None
         for lp in emit:
-            it = lp.target.id
+            it = _item_var(lp) or ''
             whole = any((isinstance(x, ast.Subscript) and isinstance(x.value, ast.Name) and x.value.id == it and isinstance(x.slice, ast.Slice) and
                          x.slice.lower is None and x.slice.upper is None) or
                         (isinstance(x, ast.Attribute) and x.attr == 'children' and isinstance(x.value, ast.Name) and x.value.id == it) or
@@ -582,7 +590,7 @@ def run(repo: Repo, chk: Check, thorough: bool = False) -> None:
                         for cmp_ in ast.walk(n.test):
                             if isinstance(cmp_, ast.Compare) and len(cmp_.ops) == 1 and isinstance(cmp_.ops[0], (ast.Gt, ast.GtE, ast.NotEq)) and \
                                     isinstance(cmp_.left, ast.Call) and call_name(cmp_.left) == 'len' and cmp_.left.args and \
-                                    isinstance(cmp_.left.args[0], ast.Name) and cmp_.left.args[0].id == vl.target.id and \
+                                    isinstance(cmp_.left.args[0], ast.Name) and cmp_.left.args[0].id == _item_var(vl) and \
                                     isinstance(cmp_.comparators[0], ast.Constant) and isinstance(cmp_.comparators[0].value, int):
                                 k = cmp_.comparators[0].value - (1 if isinstance(cmp_.ops[0], ast.GtE) else 0)
                                 bound = k if bound is None else min(bound, k)
